@@ -5,40 +5,90 @@ import itertools
 import math
 import signal
 import warnings
+import zlib
 from fractions import Fraction
 
 import hgxv
 
-RULE = ("random Hypergraph instances: 2-9 nodes with labels from a sparse integer universe incl. 0 and labels near 2^40 (50%), "
-        "negative and positive integers (12%), a string universe incl. '' and '0' (25%) or 0..N-1 (13%), inserted in random "
-        "order, built by add_node/add_edge calls or by the constructor, 0-2 isolated nodes, 1-10 distinct hyperedges of size "
-        "1-5 (every order 0..max+1 queried, present or absent), weighted (weights k/4) or unweighted; every matrix routine of "
-        "hypergraphx.linalg.linalg and the Hypergraph methods, both keep_isolated_nodes, dense matrices and mapping dicts "
-        "compared entry by entry with the Lean model and with the definition; 45% of the static / temporal and 40% of the "
+RULE = ("random Hypergraph instances: 2-9 nodes whose labels come from one universe of comparable labels per case: sparse "
+        "integers incl. 0 and labels near 2^40 (30%), negative and positive integers (8%), strings incl. '', '0' and numeric-looking "
+        "strings whose sorted order is not the numeric one ('10' < '9', '-1', '0.5'; 14%), 0..N-1 (8%), floats (quarters "
+        "-3.0..10.0 incl. whole-number floats, floats one ulp apart, 5e-324, 1e300, negative ones; 9%), ints mixed with floats "
+        "(9%), numeric labels that LOOK like 0..N-1 (minimum 0 and maximum N-1, or all inside [0, N), or the maximum only) but "
+        "hold a non-integer (13%; ints next to floats or all floats), integers beyond 2^53 / 2^63 / 2^64 next to small and "
+        "negative ones (9%); 15% of the cases hand every label over as a numpy scalar; every call gets a NEW equal label object; "
+        "inserted in random order, built by add_node/add_edge calls (tuple or list hyperedges) or by the constructor, 0-2 isolated "
+        "nodes, 1-10 distinct hyperedges of size 1-5 (every order 0..max+1 queried, present or absent; order as int or numpy "
+        "integer, flags as bool / numpy bool / 0-1), weighted 45% with weights of one of three classes: k/4 > 0 floats, small "
+        "dyadic ints and floats incl. 0 and negative ones, or extreme ones (0, 0.0, -0.0, 5e-324, 1e-200, 1e-160, 1e200, 0.1, "
+        "1/3, 2^60, negative); every matrix routine of hypergraphx.linalg.linalg and the Hypergraph methods, both "
+        "keep_isolated_nodes, dense matrices and mapping dicts compared entry by entry with the Lean model and with the "
+        "definition; 45% of the static / temporal and 40% of the "
         "tensor cases continue with a HISTORY of 1-3 blocks of edits of the SAME object (swap a node / an isolated node / a "
         "hyperedge / several at once so that the numbers of nodes and hyperedges stay equal, re-add a removed node, "
         "set_weight / accumulate a weight, grow, shrink down to no hyperedge or no node, clear and rebuild, continue on a "
         "copy; temporal: swap a record within its time, move it to another time, interleave records of an old time, remove "
         "a node, drop a whole time) and after every block all routines are requested and compared again; after every round "
-        "the returned dicts and matrices are overwritten in place; uniform hypergraphs on 0..N-1 for the tensor; "
-        "random TemporalHypergraph records over sparse times for the temporal matrices; hye_list_to_binary_incidence called "
-        "directly on index hyperedges with repeated nodes and absent / larger / too small shapes; fixed cases: 256 and 300 hyperedges sharing "
-        "two nodes (adjacency), two hyperedges sharing 256 / 300 nodes (dual). A case is distinct by its canonical node and "
-        "hyperedge lists and its history; non-trivial when the labels are not 0..N-1 and at least one pair of hyperedges overlaps")
+        "the returned dicts and matrices are overwritten in place and the hypergraph and one routine are read again; uniform "
+        "hypergraphs on 0..N-1 for the tensor; random TemporalHypergraph records over sparse times (up to 2^64+1); "
+        "hye_list_to_binary_incidence called directly on index hyperedges (tuples, lists, frozensets, numpy arrays) with repeated "
+        "nodes and absent / larger / too small shapes; fixed cases: 256 and 300 hyperedges sharing two nodes (adjacency), two "
+        "hyperedges sharing 256 / 300 nodes (dual), and one small hypergraph per label type / weight class (bool labels only "
+        "there). A case is distinct by its canonical node and hyperedge lists and its history; non-trivial when the labels are "
+        "not 0..N-1 and at least one pair of hyperedges overlaps")
 ASSUMPTIONS = ["hyperedges are non-empty duplicate-free node tuples, distinct as sets (what Hypergraph stores)",
-               "labels are integers or strings of one type; strings are mapped to their rank in a fixed sorted universe and "
-               "possibly negative integers are shifted before they reach the model (order isomorphisms)",
+               "labels of one hypergraph are mutually comparable scalars that LabelEncoder accepts: ints, floats (no NaN / inf), "
+               "ints with floats, strings, bools - never strings with numbers, never bools with numbers (True == 1), no tuples; "
+               "they reach the model as their rank in a fixed sorted universe / shifted / times 4 (order isomorphisms; Lean "
+               "C09_relabel_invariant: the model's answers depend on the order of the labels only)",
+               "mapping values must equal the labels and have their Python type; when a hypergraph mixes ints and floats "
+               "numpy returns all labels as floats of equal value, which is accepted",
                "histories consist of edits the container accepts (existing nodes / hyperedges are removed, keep_edges=True never "
                "empties a hyperedge); what the matrices are compared with is read back from the object after every block",
                "a hypergraph without any hyperedge: the *_all_orders helpers are not requested (max_order() has no value there)",
-               "weights are multiples of 1/4 (binary64 sums and products are then exact; entries are compared exactly)",
-               "adjacency_tensor: uniform hypergraph whose nodes are exactly 0..N-1 (as the routine demands)"]
+               "weights are finite numbers, ints within 2^53; when all of them are multiples of 1/4 up to 64 binary64 sums and "
+               "products are exact and every routine is compared with the model; otherwise the routines that multiply two "
+               "weights (weighted per-order adjacency / Laplacian, about which the property says nothing) are run and checked "
+               "for shape and mapping only, all others are compared exactly",
+               "adjacency_tensor: uniform hypergraph whose nodes are exactly 0..N-1 (ints or numpy ints, as the routine demands)"]
 TRUSTED = ["sklearn LabelEncoder: classes_ = sorted distinct labels, transform = position in classes_ (validated on every case)",
            "scipy.sparse products/sums are exact on the generated dyadic inputs; numpy int64 does not overflow on them",
            "itertools.permutations yields exactly the orderings of its argument"]
 BUDGET_S = {"quick": 50, "thorough": 800}
 
-STR_UNIVERSE = sorted(set([chr(97 + i) * k for i in range(12) for k in (1, 2)] + ["E1", "N0", "Z", "A10", "A9", "10", "9", "", "0"]))
+STR_UNIVERSE = sorted(set([chr(97 + i) * k for i in range(12) for k in (1, 2)]
+                          + ["E1", "N0", "Z", "A10", "A9", "10", "9", "", "0", "2", "-1", "0.5", "1e3", "B", " a", "a b", "\u00e9", "\u00c9"]))
+
+# --- numeric label universes of every comparable TYPE (strengthening round c) ---------------------
+GRID = range(-12, 41)                                     # quarters -3.0 .. 10.0
+
+
+def _mix_typed(k):
+    """value k/4 of the mixed universe: whole numbers are ints (floats when = 1 mod 3), everything else a float"""
+    if k % 4 == 0:
+        w = k // 4
+        return float(w) if w % 3 == 1 else w
+    return k / 4
+
+
+FLOAT_UNIVERSE = sorted(set([k / 4 for k in GRID] + [0.1, 0.10000000000000002, 1 / 3, 2.0 ** 40 + 0.5, 2.0 ** 53, 2.0 ** 60,
+                                                       1e300, -1e300, 5e-324, -5e-324, 1e-200, -1e-200, 123456789.125]))
+MIX_UNIVERSE = sorted([_mix_typed(k) for k in GRID] + [0.1, 1 / 3, 2 ** 40, 2.0 ** 40 + 0.5, 2 ** 53 + 1, -(2 ** 53) - 1, 2.0 ** 53,
+                                                        2 ** 63 + 1, 1e300, -1e300, 5e-324])
+BIG_UNIVERSE = sorted(list(range(0, 24)) + [2 ** 31, 2 ** 32 + 1, 2 ** 53, 2 ** 53 + 1, 2 ** 62, 2 ** 63 - 5, 2 ** 63 - 1, 2 ** 63, 2 ** 63 + 1,
+                                            2 ** 64 - 1, 2 ** 64, 2 ** 64 + 3, 2 ** 70, 2 ** 70 + 1,
+                                            -1, -5, -(2 ** 31) - 1, -(2 ** 53) - 1, -(2 ** 63), -(2 ** 63) - 1, -(2 ** 70)])
+RANK = {"str": {x: i for i, x in enumerate(STR_UNIVERSE)}, "float": {x: i for i, x in enumerate(FLOAT_UNIVERSE)},
+        "mix": {x: i for i, x in enumerate(MIX_UNIVERSE)}, "big": {x: i for i, x in enumerate(BIG_UNIVERSE)}}
+assert all(len(RANK[k]) == len(u) for k, u in (("float", FLOAT_UNIVERSE), ("mix", MIX_UNIVERSE), ("big", BIG_UNIVERSE)))
+
+
+def crc(*parts):
+    return zlib.crc32("|".join(map(str, parts)).encode())
+
+
+def near_typed(k, allfloat):
+    return k / 4 if (allfloat or k % 4) else k // 4
 
 
 class CaseTimeout(Exception):
@@ -90,7 +140,10 @@ def dense(M):
 
 
 def mat_str(rows):
-    return hgxv.enc_lists(rows)
+    try:
+        return hgxv.enc_lists(rows)
+    except (OverflowError, ValueError, TypeError):        # inf / nan entries: the model never answers that
+        return "non-finite:" + repr(rows)[:120].replace(" ", "")
 
 
 def map_plain(m):
@@ -111,25 +164,112 @@ def universe(kind, n):
         return list(range(-40, 41))
     if kind == "str":
         return list(STR_UNIVERSE)
+    if kind == "float":
+        return list(FLOAT_UNIVERSE)
+    if kind == "mix":
+        return list(MIX_UNIVERSE)
+    if kind == "big":
+        return list(BIG_UNIVERSE)
+    if kind in ("near", "nearf"):
+        return [near_typed(k, kind == "nearf") for k in range(0, 4 * (n + 3) + 1)]
+    if kind == "bool":
+        return [False, True]
     return list(range(n + 8))                             # "range": the initial labels are 0..n-1
+
+
+def near_labels(rng, n, allfloat):
+    """numeric labels that LOOK like 0..n-1 (minimum 0 and maximum n-1, or all inside [0, n)) but are not: at least one
+    of them is not a whole number, so its value / its truncation is not its rank"""
+    r = rng.random()
+    if r < 0.6:                                           # min 0, max n-1, n-2 points in between
+        while True:
+            inner = rng.sample(range(1, 4 * (n - 1)), n - 2)
+            if any(k % 4 for k in inner):
+                break
+        ks = [0, 4 * (n - 1)] + inner
+    elif r < 0.8:                                         # all inside [0, n): truncations collide or skip
+        while True:
+            ks = rng.sample(range(0, 4 * n), n)
+            if any(k % 4 for k in ks):
+                break
+    else:                                                 # only the maximum looks right
+        ks = [4 * (n - 1)] + rng.sample(range(1, 4 * (n - 1)), n - 1)
+    return [near_typed(k, allfloat) for k in ks]
 
 
 def gen_labels(rng, n):
     r = rng.random()
-    if r < 0.50:
+    if r < 0.30:
         kind = "int"
         labels = rng.sample(universe(kind, n), n) if rng.random() < 0.6 else [10 * (i + 1) for i in range(n)]
-    elif r < 0.62:
+    elif r < 0.38:
         kind = "neg"
         labels = rng.sample(universe(kind, n), n)
-    elif r < 0.87:
+    elif r < 0.52:
         kind = "str"
         labels = rng.sample(STR_UNIVERSE, n)
-    else:
+    elif r < 0.60:
         kind = "range"
         labels = list(range(n))
+    elif r < 0.69:
+        kind = "float"
+        labels = rng.sample(FLOAT_UNIVERSE, n)
+    elif r < 0.78:
+        kind = "mix"
+        labels = rng.sample(MIX_UNIVERSE, n)
+    elif r < 0.91 and n >= 3:
+        kind = "nearf" if rng.random() < 0.4 else "near"
+        labels = near_labels(rng, n, kind == "nearf")
+    else:
+        kind = "big"
+        labels = rng.sample(BIG_UNIVERSE, n)
     rng.shuffle(labels)
     return kind, labels
+
+
+NP_KINDS = ("int", "neg", "str", "range", "float", "mix", "near", "nearf")
+
+
+def fresh(x, npm=False):
+    """a NEW object equal to the label `x` (labels are objects: small ints and literals are shared, everything else is
+    rebuilt for every call); `npm`: as the numpy scalar of its type where one exists"""
+    import numpy as np
+    if isinstance(x, bool):
+        return np.bool_(x) if npm else x
+    if isinstance(x, int):
+        v = int(str(x))
+        return np.int64(v) if npm and -2 ** 63 <= v < 2 ** 63 else v
+    if isinstance(x, float):
+        v = float.fromhex(x.hex())
+        return np.float64(v) if npm else v
+    if isinstance(x, str):
+        v = "".join(list(x)) if len(x) > 1 else x
+        return np.str_(v) if npm else v
+    return x
+
+
+# weights of every magnitude and sign that add_edge / set_weight accept
+W_EXT = [0.0, 0, -0.0, 1e-200, 5e-324, 1e-160, 1e-320, -1e-200, 1e200, -1e200, 0.1, 1 / 3, 2.0 ** 60, 2 ** 40, 3, -2, 0.75]
+
+
+def gen_weight(rng, mode):
+    """one hyperedge weight (a Python int or float)"""
+    if mode == "pos":                                     # the weights of the earlier rounds: k/4 > 0 as floats
+        return rng.randint(1, 16) / 4
+    if mode == "dy":                                      # small dyadic weights incl. 0 and negative ones, ints and floats
+        k = 0 if rng.random() < 0.2 else rng.randint(-8, 16)
+        return k // 4 if (k % 4 == 0 and rng.random() < 0.5) else k / 4
+    return rng.choice(W_EXT) if rng.random() < 0.7 else rng.randint(-8, 16) / 4
+
+
+def gen_wmode(rng):
+    r = rng.random()
+    return "pos" if r < 0.35 else "dy" if r < 0.7 else "ext"
+
+
+def wnum(x):
+    """a weight as stored in a case (a number; cases of earlier rounds hold `p/q` strings)"""
+    return float(hgxv.dec_num(x)) if isinstance(x, str) else x
 
 
 def ekey(e):
@@ -140,8 +280,9 @@ class Shadow:
     """nodes / hyperedges a Hypergraph holds after a sequence of edits - used only to GENERATE valid edits
     (what the matrices are compared with is always read back from the real object)"""
 
-    def __init__(self, weighted, nodes=(), edges=()):
+    def __init__(self, weighted, nodes=(), edges=(), wmode="pos"):
         self.weighted = weighted
+        self.wmode = wmode
         self.nodes = []
         self.edges = {}
         for x in nodes:
@@ -214,7 +355,7 @@ def gen_stage(rng, sh, kind, n0):
         return [x for x in univ if x not in sh.nodes]
 
     def wt():
-        return hgxv.enc_num(Fraction(rng.randint(1, 16), 4)) if sh.weighted else None
+        return gen_weight(rng, sh.wmode) if sh.weighted else None
 
     def new_edge(pool, size=None, must=None):
         for _ in range(10):
@@ -371,16 +512,17 @@ def gen_static(rng, with_history=None):
             continue
         seen.add(key)
         edges.append(e)
-    weighted = rng.random() < 0.4
-    weights = [Fraction(rng.randint(1, 16), 4) for _ in edges] if weighted else [1] * len(edges)
+    weighted = rng.random() < 0.45
+    wmode = gen_wmode(rng)
+    weights = [gen_weight(rng, wmode) for _ in edges] if weighted else [1] * len(edges)
     order = list(labels)
     rng.shuffle(order)
     pre = [x for x in order if rng.random() < 0.5]      # nodes added before the hyperedges, in random order
     case = {"kind": "static", "labels": kind, "pre_nodes": pre, "nodes": order, "edges": [list(e) for e in edges],
-            "weighted": weighted, "weights": [hgxv.enc_num(w) for w in weights],
+            "weighted": weighted, "weights": weights, "np": kind in NP_KINDS and rng.random() < 0.15,
             "build": rng.choice(["calls", "calls", "ctor"])}
     if with_history if with_history is not None else rng.random() < 0.45:
-        sh = Shadow(weighted, pre, edges)
+        sh = Shadow(weighted, pre, edges, wmode)
         for x in order:
             sh._node(x)
         case["history"] = gen_history(rng, sh, kind, n)
@@ -396,7 +538,7 @@ def gen_tensor(rng):
     edges = [list(rng.sample(e, len(e))) for e in allk[:m]]
     if rng.random() < 0.2 and n >= 3 and k < n:
         edges.append(list(range(k + 1)))                 # non-uniform: the routine must reject
-    case = {"kind": "tensor", "n": n, "edges": edges}
+    case = {"kind": "tensor", "n": n, "edges": edges, "np": rng.random() < 0.15}
     if rng.random() < 0.4:
         # edits of the same object that keep the node set 0..n-1 and at least one hyperedge
         sh = Shadow(False, range(n), edges)
@@ -434,13 +576,16 @@ def gen_hye(rng):
         shape = [n + rng.randint(0, 2), len(hy) + rng.randint(0, 2)]
     else:
         shape = [max(0, n + rng.randint(-2, 1)), max(0, len(hy) + rng.randint(-2, 1))]
-    return {"kind": "hye", "hyes": hy, "shape": shape}
+    return {"kind": "hye", "hyes": hy, "shape": shape, "cont": rng.randrange(1 << 30)}
+
+
+ALL_TIMES = [0, 1, 2, 3, 5, 8, 13, 40, 2 ** 33 + 1, 2 ** 64 + 1]
 
 
 def gen_temporal(rng):
     n = rng.randint(2, 8)
     kind, labels = gen_labels(rng, n)
-    times = rng.sample([0, 1, 2, 3, 5, 8, 13, 40], rng.randint(1, 4))
+    times = rng.sample(ALL_TIMES, rng.randint(1, 4))
     recs, seen = [], set()
     for _ in range(rng.randint(1, 12)):
         k = min(n, rng.choice([1, 2, 2, 3, 3, 4]))
@@ -451,23 +596,24 @@ def gen_temporal(rng):
         seen.add((t, frozenset(e)))
         recs.append((t, e))
     weighted = rng.random() < 0.35
-    weights = [Fraction(rng.randint(1, 16), 4) for _ in recs] if weighted else [1] * len(recs)
+    wmode = gen_wmode(rng)
+    weights = [gen_weight(rng, wmode) for _ in recs] if weighted else [1] * len(recs)
     iso = [x for x in labels if rng.random() < 0.1]
     case = {"kind": "temporal", "labels": kind, "iso": iso, "recs": [[t, list(e)] for t, e in recs], "weighted": weighted,
-            "weights": [hgxv.enc_num(w) for w in weights]}
+            "weights": weights, "np": kind in NP_KINDS and rng.random() < 0.15}
     if rng.random() < 0.45:
-        case["history"] = gen_temporal_history(rng, kind, n, labels, weighted, recs, iso)
+        case["history"] = gen_temporal_history(rng, kind, n, labels, weighted, recs, iso, wmode)
     return case
 
 
-def gen_temporal_history(rng, kind, n, labels, weighted, recs, iso):
+def gen_temporal_history(rng, kind, n, labels, weighted, recs, iso, wmode="pos"):
     """edits of the same TemporalHypergraph between two rounds of requests (at least one record always remains)"""
     cur = {(t, ekey(e)): None for t, e in recs}           # insertion-ordered, as the implementation lists them
     nodes = set(iso) | set(x for _, e in recs for x in e)
-    all_times = [0, 1, 2, 3, 5, 8, 13, 40]
+    all_times = ALL_TIMES
 
     def wt():
-        return hgxv.enc_num(Fraction(rng.randint(1, 16), 4)) if weighted else None
+        return gen_weight(rng, wmode) if weighted else None
 
     def new_rec(t=None, size=None):
         for _ in range(10):
@@ -563,27 +709,117 @@ def fixed_cases():
                "weights": ["1"] * 3, "profile": "dual-only", "fixed": f"two hyperedges share {share} nodes"}
 
 
+def zoo_cases():
+    """one small fixed hypergraph per label TYPE / weight class (the random generator draws from the same classes)"""
+    def st(kind, edges, iso=(), weights=None, np_=False, build="calls", history=None):
+        nodes = []
+        for e in edges:
+            for x in e:
+                if x not in nodes:
+                    nodes.append(x)
+        nodes += [x for x in iso if x not in nodes]
+        c = {"kind": "static", "labels": kind, "pre_nodes": list(iso), "nodes": nodes[::-1], "edges": [list(e) for e in edges],
+             "weighted": weights is not None, "weights": list(weights) if weights is not None else [1] * len(edges),
+             "np": np_, "build": build, "fixed": "zoo"}
+        if history:
+            c["history"] = history
+        return c
+    # numeric labels that look like 0..N-1 at both ends (ints mixed with floats / all floats), isolated nodes included
+    yield st("near", [[0, 0.5], [0.5, 2]])
+    yield st("near", [[0, 1, 1.5], [1.5, 3], [0, 3]], iso=[4])
+    yield st("nearf", [[0.0, 0.25, 3.0], [0.25, 1.75], [3.0, 1.75, 0.0]], build="ctor")
+    yield st("nearf", [[0.5, 1.5], [1.5, 2.25, 0.75]])                    # all inside [0, N)
+    yield st("near", [[0, 2.5], [2.5, 1], [1, 0, 3]], np_=True)
+    # non-integer floats, negative floats, whole-number floats, floats one ulp apart, huge / tiny floats
+    yield st("float", [[0.25, 0.5], [0.5, 2.5, 3.75], [0.25, 3.75]], iso=[2.75])
+    yield st("float", [[-2.75, -0.25], [-0.25, 1.0, 7.0], [1.0, -2.75]], iso=[2.0], build="ctor")
+    yield st("float", [[0.1, 0.10000000000000002], [0.10000000000000002, 1 / 3, 1e300], [-1e300, 5e-324, -5e-324]], np_=True)
+    yield st("mix", [[0, 0.5, 2], [2, 1.0, -3], [0.5, 2 ** 40], [2.0 ** 40 + 0.5, 2 ** 40]], iso=[-1.25])
+    # integers beyond 2**53 / 2**63 / 2**64, also next to small and negative ones and next to floats
+    yield st("big", [[5, 2 ** 63 + 1], [2 ** 63 + 1, 2 ** 63], [2 ** 63 - 5, 7]])
+    yield st("big", [[2 ** 64 + 3, 2 ** 70], [2 ** 70, 2 ** 70 + 1, 3], [-(2 ** 63) - 1, 3]], iso=[-(2 ** 70)])
+    yield st("big", [[-1, 2 ** 63], [2 ** 63, 2 ** 64 - 1], [2 ** 53, 2 ** 53 + 1]])
+    yield st("mix", [[2 ** 53 + 1, 0.5], [0.5, 2.0 ** 53], [-(2 ** 53) - 1, 2 ** 63 + 1, 0.5]])
+    # bool labels; numpy scalars of every kind; strings whose sorted order is not the numeric one
+    yield st("bool", [[False, True], [True]])
+    yield st("int", [[3, 70], [70, 5, BIG], [BIG + 1, 3]], iso=[0], np_=True)
+    yield st("str", [["10", "9"], ["9", "2", "-1"], ["0.5", "10", ""], ["B", "a"]], iso=["0"], np_=True)
+    # weights: 0 / 0.0 / -0.0, tiny (products underflow), huge (products overflow), negative, ints next to floats
+    e4 = [[1, 2], [2, 3, 4], [4, 5], [7, 8]]
+    yield st("int", e4, weights=[2.0, 0.0, 1.5, 1.0])
+    yield st("int", e4, weights=[2, 0, -3, 1], build="ctor")
+    yield st("int", e4[:3], weights=[1e-200, 1e-200, 1e-200], build="ctor")
+    yield st("int", e4, weights=[1e200, -1e200, 5e-324, -0.0], iso=[6])
+    yield st("float", [[0.5, 1.5], [1.5, 1.75, 4.0], [0.5, 4.0]], weights=[0.1, 1 / 3, 2.0 ** 60],
+             history=[{"type": "reweight", "ops": [["set_weight", [1.5, 0.5], 0]]},
+                      {"type": "reweight", "ops": [["add_edge", [4.0, 0.5], -2.0 ** 60]]}])
+    yield {"kind": "temporal", "labels": "float", "iso": [], "weighted": False, "weights": [1, 1, 1], "np": False, "fixed": "zoo",
+           "recs": [[0, [0.5, 1.5]], [0, [1.5, 1.75, 4.0]], [3, [0.5, 4.0]]]}
+    yield {"kind": "temporal", "labels": "near", "iso": [1], "weighted": True, "weights": [0.0, 1e-200, 2, -1.5], "np": True,
+           "fixed": "zoo", "recs": [[2, [0, 0.5]], [2, [0.5, 2]], [5, [0, 2, 0.5]], [2, [2, 0]]]}
+
+
 # --------------------------------------------------------------------------------------------------
 # helpers shared by the oracles
 
 def to_nat(kind, x):
-    """order isomorphism of the label universe into the naturals (the model's labels)"""
-    if kind == "str":
-        return STR_UNIVERSE.index(x)
+    """order isomorphism of the label universe into the naturals (the model's labels); the model's answers depend on
+    the order of the labels only (Lean: `C09_relabel_invariant`)"""
+    x = plain(x)
+    if kind in RANK:
+        return RANK[kind][x]
     if kind == "neg":
         return int(x) + 40
+    if kind in ("near", "nearf"):
+        k = Fraction(x) * 4
+        if k.denominator != 1:
+            raise KeyError(x)
+        return int(k)
+    if isinstance(x, float) and x != int(x):
+        raise KeyError(x)
     return int(x)
 
 
 def check_mapping(ctx, case, what, m, want_nodes):
-    """the property: the mapping is a bijection between row indices 0..N-1 and the nodes"""
-    want = list(want_nodes)
-    keys = sorted(m.keys(), key=repr)
-    ok = (len(m) == len(want) and sorted(m.keys()) == list(range(len(want)))
-          and sorted(map(repr, m.values())) == sorted(map(repr, want)))
+    """the property: the mapping is a bijection between the row indices 0..N-1 and the nodes. Its values are the node
+    labels themselves: equal to them (`==`, so that `value in hyperedge` works) and of their type - when the labels mix
+    ints and floats numpy hands all of them back as floats, which is accepted"""
+    want = [plain(x) for x in want_nodes]
+    keys = [plain(k) for k in m.keys()]
+    vals = [plain(v) for v in m.values()]
+    ok = (len(vals) == len(want) and all(type(k) is int for k in keys) and sorted(keys) == list(range(len(want))))
+    if ok:
+        try:
+            ok = len(set(vals)) == len(vals) and set(vals) == set(want)
+        except TypeError:
+            ok = False
+    if ok:
+        tw = {x: type(x) for x in want}
+        types = set(tw.values())
+        if len(types) == 1:
+            ok = all(type(v) is tw[v] for v in vals)
+        else:
+            ok = all(type(v) in (int, float) for v in vals)
     if not ok:
-        ctx.violation(case, f"{what}: mapping {dict((k, m[k]) for k in keys)!r} is not a bijection between 0..{len(want) - 1} and the nodes {sorted(want, key=repr)!r}")
+        shown = {k: m[k] for k in sorted(m.keys(), key=repr)}
+        ctx.violation(case, f"{what}: mapping {shown!r} is not a bijection between 0..{len(want) - 1} and the nodes {sorted(want, key=repr)!r} (labels by value and type)")
     return ok
+
+
+def same_num(a, b):
+    """exact equality of two matrix entries; NaN equals NaN (overflowing products of huge weights)"""
+    if a == b:
+        return True
+    return isinstance(a, float) and isinstance(b, float) and math.isnan(a) and math.isnan(b)
+
+
+def same_rows(a, b):
+    return len(a) == len(b) and all(len(r) == len(q) and all(same_num(x, y) for x, y in zip(r, q)) for r, q in zip(a, b))
+
+
+def exact_weights(wts):
+    """dyadic weights whose products and sums binary64 computes exactly (then entries are compared with the model)"""
+    return all(isinstance(w, Fraction) and w.denominator <= 4 and abs(w) <= 64 for w in wts)
 
 
 def expect_matrix(ctx, case, what, got, want_rows, nrows, ncols):
@@ -594,7 +830,7 @@ def expect_matrix(ctx, case, what, got, want_rows, nrows, ncols):
         return False
     for i in range(nrows):
         for j in range(ncols):
-            if rows[i][j] != want_rows[i][j]:
+            if not same_num(rows[i][j], want_rows[i][j]):
                 ctx.violation(case, f"{what}: entry ({i},{j}) = {rows[i][j]}, definition gives {want_rows[i][j]}")
                 return False
     return True
@@ -626,75 +862,99 @@ def obs_matrix(ob, line, res):
 # --------------------------------------------------------------------------------------------------
 # static hypergraph
 
+def presenter(case):
+    """labels and weights as they are handed to the implementation: a NEW equal object per use (`fresh`), numpy scalars
+    when the case says so; hyperedges as tuples or lists"""
+    npm = bool(case.get("np"))
+    import numpy as np
+
+    def lab(x):
+        return fresh(x, npm)
+
+    def edge(e, salt=0):
+        """single-edge calls take a tuple or a list; the batch calls (constructor, add_edges, remove_edges) hash their
+        hyperedges, so they get tuples only (salts 1, 4, 6)"""
+        t = [lab(x) for x in e]
+        return t if (salt not in (1, 4, 6) and crc("edge", salt, e) % 4 == 0) else tuple(t)
+
+    def w(x):
+        if x is None:
+            return None
+        x = wnum(x)
+        if npm:
+            return np.float64(x) if isinstance(x, float) else np.int64(x)
+        return float.fromhex(x.hex()) if isinstance(x, float) else int(str(x))
+    return lab, edge, w
+
+
 def build_static(case):
     from hypergraphx import Hypergraph
-    weights = [hgxv.dec_num(w) for w in case["weights"]]
+    lab, edge, w = presenter(case)
+    weights = [w(x) for x in case["weights"]]
     if case.get("build") == "ctor":
         if case["weighted"]:
-            h = Hypergraph(edge_list=[tuple(e) for e in case["edges"]], weighted=True, weights=[float(w) for w in weights])
+            h = Hypergraph(edge_list=[edge(e, 1) for e in case["edges"]], weighted=True, weights=weights)
         else:
-            h = Hypergraph(edge_list=[tuple(e) for e in case["edges"]])
+            h = Hypergraph(edge_list=[edge(e, 1) for e in case["edges"]])
         for x in case["pre_nodes"] + case["nodes"]:
-            h.add_node(x)
+            h.add_node(lab(x))
         return h
     h = Hypergraph(weighted=case["weighted"])
     for x in case["pre_nodes"]:
-        h.add_node(x)
-    for e, w in zip(case["edges"], weights):
+        h.add_node(lab(x))
+    for e, wt in zip(case["edges"], weights):
         if case["weighted"]:
-            h.add_edge(tuple(e), float(w))
+            h.add_edge(edge(e, 2), wt)
         else:
-            h.add_edge(tuple(e))
+            h.add_edge(edge(e, 2))
     for x in case["nodes"]:
-        h.add_node(x)
+        h.add_node(lab(x))
     return h
 
 
-def apply_op(h, op, weighted):
+def apply_op(h, op, weighted, case=None):
     """one edit of a history on the object `h`; returns the object the next requests go to"""
     k = op[0]
-
-    def w(x):
-        return float(hgxv.dec_num(x)) if x is not None else None
+    lab, edge, w = presenter(case or {})
     if k == "copy":
         return h.copy()
     if k == "clear":
         h.clear()
     elif k == "add_node":
-        h.add_node(op[1])
+        h.add_node(lab(op[1]))
     elif k == "add_nodes":
-        h.add_nodes(list(op[1]))
+        h.add_nodes([lab(x) for x in op[1]])
     elif k == "remove_node":
-        h.remove_node(op[1], keep_edges=bool(op[2]))
+        h.remove_node(lab(op[1]), keep_edges=bool(op[2]))
     elif k == "remove_nodes":
-        h.remove_nodes(list(op[1]), keep_edges=bool(op[2]))
+        h.remove_nodes([lab(x) for x in op[1]], keep_edges=bool(op[2]))
     elif k == "add_edge":
         if weighted:
-            h.add_edge(tuple(op[1]), w(op[2]))
+            h.add_edge(edge(op[1], 3), w(op[2]))
         else:
-            h.add_edge(tuple(op[1]))
+            h.add_edge(edge(op[1], 3))
     elif k == "add_edges":
         if weighted:
-            h.add_edges([tuple(e) for e in op[1]], weights=[w(x) for x in op[2]])
+            h.add_edges([edge(e, 4) for e in op[1]], weights=[w(x) for x in op[2]])
         else:
-            h.add_edges([tuple(e) for e in op[1]])
+            h.add_edges([edge(e, 4) for e in op[1]])
     elif k == "remove_edge":
-        h.remove_edge(tuple(op[1]))
+        h.remove_edge(edge(op[1], 5))
     elif k == "remove_edges":
-        h.remove_edges([tuple(e) for e in op[1]])
+        h.remove_edges([edge(e, 6) for e in op[1]])
     elif k == "set_weight":
-        h.set_weight(tuple(op[1]), w(op[2]))
+        h.set_weight(edge(op[1], 7), w(op[2]))
     elif k == "t_add_edge":
         if weighted:
-            h.add_edge(tuple(op[1]), op[2], w(op[3]))
+            h.add_edge(edge(op[1], 8), op[2], w(op[3]))
         else:
-            h.add_edge(tuple(op[1]), op[2])
+            h.add_edge(edge(op[1], 8), op[2])
     elif k == "t_remove_edge":
-        h.remove_edge(tuple(op[1]), op[2])
+        h.remove_edge(edge(op[1], 9), op[2])
     elif k == "t_remove_node":
-        h.remove_node(op[1], keep_edges=bool(op[2]))
+        h.remove_node(lab(op[1]), keep_edges=bool(op[2]))
     elif k == "t_set_weight":
-        h.set_weight(tuple(op[1]), op[2], w(op[3]))
+        h.set_weight(edge(op[1], 10), op[2], w(op[3]))
     else:
         raise ValueError("unknown history op " + repr(k))
     return h
@@ -737,7 +997,7 @@ def run_history(ctx, case, h, audit, weighted):
     for k, stage in enumerate(case.get("history", []), 1):
         ctx.count("history_" + stage["type"])
         for op in stage["ops"]:
-            res = guarded(apply_op, h, op, weighted)
+            res = guarded(apply_op, h, op, weighted, case)
             if res[0] == "exc":
                 ctx.violation(case, f"history block {k}: the edit {op!r} of the hypergraph raised {res[1]}")
                 return
@@ -785,8 +1045,21 @@ def audit_static(ctx, case, h, ob):
     N, E = len(nodes), len(edges)
     esets = [set(e) for e in edges]
     returned = []
-    ob.add("load " + hgxv.enc_list([to_nat(kind, x) for x in nodes]) + " "
-           + hgxv.enc_lists([[to_nat(kind, x) for x in e] for e in edges]) + " " + hgxv.enc_list(wts), "ok")
+    if any(not isinstance(w, Fraction) for w in wts):
+        ctx.violation(case, f"get_weights returned a weight that is not a finite number: {wts!r}")
+        return "unlisted", False, 0
+    exact = exact_weights(wts)                            # products of weights are exact: every routine goes to the model
+    salt = crc(case.get("nodes"), case.get("edges"), len(ob.lines))
+    import numpy as np
+    st, loadline = guarded(lambda: "load " + hgxv.enc_list([to_nat(kind, x) for x in nodes]) + " "
+                           + hgxv.enc_lists([[to_nat(kind, x) for x in e] for e in edges]) + " " + hgxv.enc_list(wts))
+    if st == "exc":
+        ctx.violation(case, f"get_nodes / get_edges list labels that were never inserted: {nodes!r} {edges!r}")
+        return "unlisted", False, 0
+    ob.add(loadline, "ok")
+    ctx.count("weights_exact" if exact else "weights_extreme")
+    if weighted and any(w == 0 for w in wts):
+        ctx.count("weights_with_zero")
     overlap = any(esets[a] & esets[b] for a in range(E) for b in range(a + 1, E))
     nontrivial = overlap and sorted(nodes, key=repr) != sorted(range(N), key=repr)
     key = repr((sorted(map(repr, nodes)), sorted((sorted(map(repr, e)), str(w)) for e, w in zip(edges, wts)), weighted, profile))
@@ -822,25 +1095,39 @@ def audit_static(ctx, case, h, ob):
         return d, m
 
     def same_without_mapping(what, d_with, f, *a, **k):
-        """the call without return_mapping must return the same matrix alone"""
+        """the call without return_mapping must return the same matrix alone (asked for 2 of 5 requests, chosen by a
+        checksum of the case and the request so that a replay repeats the choice)"""
+        if crc(salt, what) % 5 >= 2:
+            return
         res = guarded(f, *a, **k)
         if res[0] == "exc":
             ctx.violation(case, f"{what} without return_mapping raised {res[1]}")
             return
         returned.append(res[1])
         dd = guarded(dense, res[1])
-        if dd[0] == "exc" or dd[1] != d_with:
+        if dd[0] == "exc" or dd[1][:2] != d_with[:2] or not same_rows(dd[1][2], d_with[2]):
             ctx.violation(case, f"{what}: the matrix returned without return_mapping differs from the one returned with it")
 
+    def flag_arg(b, *why):
+        """a flag as the bool, the numpy bool or the int 0/1 (all of them are tested by truth value)"""
+        c = crc(salt, *why) % 4
+        return np.bool_(b) if c == 0 else int(b) if c == 1 else bool(b)
+
+    def order_arg(d):
+        """the order as a Python int or as a numpy integer"""
+        return np.int64(d) if crc(salt, "order", d) % 4 == 0 else int(str(d))
+
     # ---- binary incidence, incidence, adjacency, dual (functions and methods) ----------------------------
-    base_map = None
+    base_map = base_raw = None
+    keepsake = {}
     if profile in ("full", "dual-only", "adjacency-only"):
         for what, res in routes("binary_incidence_matrix", return_mapping=True):
             r = with_mapping(res, what, nodes)
             if r is None:
                 continue
             d, m = r
-            base_map = base_map or m
+            if base_map is None:
+                base_map, base_raw = m, res[1][1]
             want = [[1 if m[i] in esets[j] else 0 for j in range(E)] for i in range(N)]
             expect_matrix(ctx, case, what, d, want, N, E)
             if what.startswith("linalg"):
@@ -858,6 +1145,7 @@ def audit_static(ctx, case, h, ob):
             want = [[wts[j] if m[i] in esets[j] else 0 for j in range(E)] for i in range(N)]
             expect_matrix(ctx, case, what, d, want, N, E)
             if what.startswith("linalg"):
+                keepsake["inc"] = (d, m)
                 ob.add("inc", mat_str(d[2]))
                 same_without_mapping("linalg.incidence_matrix", d, L.incidence_matrix, h)
             else:
@@ -913,7 +1201,8 @@ def audit_static(ctx, case, h, ob):
             ctx.count("order_present" if idx else "order_absent")
             for keep in (False, True):
                 what = f"incidence_matrix_by_order(order={d_}, keep_isolated_nodes={keep})"
-                res = guarded(L.incidence_matrix_by_order, h, d_, keep_isolated_nodes=keep, return_mapping=True)
+                res = guarded(L.incidence_matrix_by_order, h, order_arg(d_), keep_isolated_nodes=flag_arg(keep, "keep", d_),
+                              return_mapping=flag_arg(True, "rm", d_, keep))
                 want_nodes = nodes if keep else sorted(set(x for e in ed for x in e), key=repr)
                 r = with_mapping(res, what, want_nodes)
                 if r is None:
@@ -927,32 +1216,39 @@ def audit_static(ctx, case, h, ob):
                 same_without_mapping(what, dm, L.incidence_matrix_by_order, h, d_, keep_isolated_nodes=keep)
                 if keep and all_inc[0] == "ok" and d_ in all_inc[1]:
                     try:
-                        same = dense(all_inc[1][d_])[2] == dm[2]
+                        same = same_rows(dense(all_inc[1][d_])[2], dm[2])
                     except Exception:  # noqa: BLE001
                         same = False
                     if not same:
                         ctx.violation(case, f"incidence_matrices_all_orders[{d_}] differs from incidence_matrix_by_order({d_})")
             # adjacency by order
             what = f"adjacency_matrix_by_order(order={d_})"
-            res = guarded(L.adjacency_matrix_by_order, h, d_, return_mapping=True)
+            res = guarded(L.adjacency_matrix_by_order, h, order_arg(d_), return_mapping=True)
             r = with_mapping(res, what, nodes)
             A_def = None
             if r is None:
-                ob.add(f"adjord {d_}", "exc")
+                if exact:
+                    ob.add(f"adjord {d_}", "exc")
             else:
                 dm, m = r
                 lab = [m[i] for i in range(N)]
                 if not weighted:
                     A_def = adjacency_definition(lab, ed)
                     expect_matrix(ctx, case, what, dm, A_def, N, N)
-                ob.add(f"adjord {d_}", mat_str(dm[2]))
+                if exact:
+                    ob.add(f"adjord {d_}", mat_str(dm[2]))
                 same_without_mapping(what, dm, L.adjacency_matrix_by_order, h, d_)
             # degree matrix and Laplacian: rows follow the node mapping of the incidence matrix
             if base_map is not None:
                 lab = [base_map[i] for i in range(N)]
                 deg = [sum(1 for e in ed if x in e) for x in lab]
-                res = guarded(L.degree_matrix, h, d_, dict(base_map))
+                # the mapping argument: a plain dict or (every third request) the dict a routine returned, numpy keys and all
+                marg = dict(base_raw) if crc(salt, "marg", d_) % 3 == 0 else dict(base_map)
+                mkeep = dict(marg)
+                res = guarded(L.degree_matrix, h, order_arg(d_), marg)
                 what = f"degree_matrix(order={d_})"
+                if list(marg.items()) != list(mkeep.items()):
+                    ctx.violation(case, f"{what} changed the mapping dict it was given: {marg!r}")
                 if res[0] == "exc":
                     ctx.violation(case, f"{what} raised {res[1]}")
                     ob.add(f"deg {d_}", "exc")
@@ -967,17 +1263,19 @@ def audit_static(ctx, case, h, ob):
                         obs_matrix(ob, f"deg {d_}", dd)
                 for flag, q in ((False, "lap"), (True, "laps")):
                     what = f"laplacian_matrix_by_order(order={d_}, weighted={flag})"
-                    res = guarded(L.laplacian_matrix_by_order, h, d_, flag)
+                    res = guarded(L.laplacian_matrix_by_order, h, order_arg(d_), flag)
                     if res[0] == "exc":
                         ctx.violation(case, f"{what} raised {res[1]}")
-                        ob.add(f"{q} {d_}", "exc")
+                        if exact:
+                            ob.add(f"{q} {d_}", "exc")
                         continue
                     returned.append(res[1])
                     dd = guarded(dense, res[1])
                     if dd[0] == "exc":
                         ctx.violation(case, f"{what}: not a matrix")
                         continue
-                    obs_matrix(ob, f"{q} {d_}", dd)
+                    if exact:
+                        obs_matrix(ob, f"{q} {d_}", dd)
                     if not weighted and not flag:
                         A_d = adjacency_definition(lab, ed)
                         want = [[d_ * deg[i] if i == j else -A_d[i][j] for j in range(N)] for i in range(N)]
@@ -989,13 +1287,29 @@ def audit_static(ctx, case, h, ob):
                                 ctx.violation(case, what + " has a non-zero row sum")
                         if all_lap[0] == "ok" and d_ in all_lap[1]:
                             try:
-                                same = dense(all_lap[1][d_])[2] == dd[1][2]
+                                same = same_rows(dense(all_lap[1][d_])[2], dd[1][2])
                             except Exception:  # noqa: BLE001
                                 same = False
                             if not same:
                                 ctx.violation(case, f"laplacian_matrices_all_orders[{d_}] differs from laplacian_matrix_by_order({d_})")
 
     scribble(returned)
+    # the caller owns what it was given: after overwriting all of it, the hypergraph and a new answer are what they were
+    again = guarded(lambda: (list(h.get_nodes()), [tuple(e) for e in h.get_edges()], [frac(w) for w in h.get_weights()]))
+    if again[0] == "exc" or again[1] != listing:
+        ctx.violation(case, f"overwriting the returned matrices / mapping dicts changed the hypergraph itself: {str(again[1])[:200]}")
+    elif "inc" in keepsake:
+        res = guarded(L.incidence_matrix, h, True)
+        ok = res[0] == "ok"
+        if ok:
+            try:
+                d2, m2 = dense(res[1][0]), map_plain(res[1][1])
+                ok = d2[:2] == keepsake["inc"][0][:2] and same_rows(d2[2], keepsake["inc"][0][2]) and \
+                    list(m2.items()) == list(keepsake["inc"][1].items())
+            except Exception:  # noqa: BLE001
+                ok = False
+        if not ok:
+            ctx.violation(case, "incidence_matrix asked again after the returned matrices / mapping dicts were overwritten differs from its first answer")
     return key, nontrivial, len(edges)
 
 
@@ -1014,13 +1328,14 @@ def compare(ctx, drv, case, ob):
 
 def check_tensor(ctx, drv, case):
     from hypergraphx import Hypergraph
-    n, edges = case["n"], [tuple(e) for e in case["edges"]]
+    lab, edge, _w = presenter(case)
+    n, edges = case["n"], [edge(e, 1) for e in case["edges"]]
     st, h = guarded(lambda: Hypergraph(edge_list=edges))
     if st == "exc":
         ctx.violation(case, "Hypergraph(edge_list) raised " + h)
         return
     for x in range(n):
-        h.add_node(x)
+        h.add_node(lab(x))
     ob = Obs()
     first = {}
 
@@ -1038,7 +1353,8 @@ def audit_tensor(ctx, case, h, ob):
     n = case["n"]
     hedges = [tuple(e) for e in h.get_edges()]
     sizes = set(len(e) for e in hedges)
-    ob.add("load " + hgxv.enc_list(list(h.get_nodes())) + " " + hgxv.enc_lists(hedges) + " " + hgxv.enc_list([1] * len(hedges)), "ok")
+    ob.add("load " + hgxv.enc_list([int(x) for x in h.get_nodes()]) + " " + hgxv.enc_lists([[int(x) for x in e] for e in hedges])
+           + " " + hgxv.enc_list([1] * len(hedges)), "ok")
     res = guarded(L.adjacency_tensor, h)
     ctx.count("tensor_uniform" if len(sizes) == 1 else "tensor_nonuniform")
     if len(sizes) != 1:
@@ -1073,10 +1389,32 @@ def audit_tensor(ctx, case, h, ob):
 
 def check_hye(ctx, drv, case):
     from hypergraphx.linalg import linalg as L
+    import numpy as np
     hy = [tuple(e) for e in case["hyes"]]
     shape = tuple(case["shape"]) if case["shape"] is not None else None
     n = max([x for e in hy for x in e], default=-1) + 1
-    res = guarded(L.hye_list_to_binary_incidence, hy, shape)
+    cont = case.get("cont")
+
+    def inner(j, e):
+        """the hyperedge as one of the containers the routine iterates: tuple, list, frozenset, numpy integer array"""
+        c = crc(cont, "in", j) % 5 if cont is not None else 0
+        if c == 1:
+            return [int(str(x)) for x in e]
+        if c == 2:
+            return frozenset(e)
+        if c == 3 and e:
+            return np.array(e, dtype=np.int64)
+        if c == 4:
+            return tuple(np.int64(x) for x in e)
+        return tuple(e)
+    arg = [inner(j, e) for j, e in enumerate(hy)]
+    if cont is not None and crc(cont, "out") % 3 == 0:
+        arg = tuple(arg)
+    sarg = list(shape) if (shape is not None and cont is not None and crc(cont, "shape") % 3 == 0) else shape
+    before = [sorted(int(x) for x in e) for e in arg]
+    res = guarded(L.hye_list_to_binary_incidence, arg, sarg)
+    if [sorted(int(x) for x in e) for e in arg] != before or (sarg is not None and tuple(sarg) != shape):
+        ctx.violation(case, "hye_list_to_binary_incidence changed the hyperedge list / shape it was given")
     ob = Obs()
     line = "hye " + (hgxv.enc_list(shape) if shape is not None else "-") + " " + hgxv.enc_lists(hy)
     too_small = shape is not None and (shape[0] < n or shape[1] < len(hy))
@@ -1108,18 +1446,19 @@ def check_hye(ctx, drv, case):
 
 def check_temporal(ctx, drv, case):
     from hypergraphx import TemporalHypergraph
-    weights = [hgxv.dec_num(w) for w in case["weights"]]
+    lab, edge, wconv = presenter(case)
+    weights = [wconv(w) for w in case["weights"]]
     weighted = case["weighted"]
 
     def build():
         th = TemporalHypergraph(weighted=weighted)
         for x in case["iso"]:
-            th.add_node(x)
+            th.add_node(lab(x))
         for (t, e), w in zip(case["recs"], weights):
             if weighted:
-                th.add_edge(tuple(e), t, float(w))
+                th.add_edge(edge(e, 11), t, w)
             else:
-                th.add_edge(tuple(e), t)
+                th.add_edge(edge(e, 11), t)
         return th
     st, th = guarded(build)
     if st == "exc":
@@ -1150,8 +1489,16 @@ def audit_temporal(ctx, case, th, ob):
     recs = [(t, e) for t, e, _ in listing]
     wts = [w for _, _, w in listing]
     times = sorted(set(t for t, _ in recs))
-    ob.add("tload " + hgxv.enc_list([t for t, _ in recs]) + " " + hgxv.enc_lists([[to_nat(kind, x) for x in e] for _, e in recs])
-           + " " + hgxv.enc_list(wts), "ok")
+    if any(not isinstance(w, Fraction) for w in wts):
+        ctx.violation(case, f"get_weight returned a weight that is not a finite number: {wts!r}")
+        return "unlisted", False
+    exact = exact_weights(wts)
+    st, loadline = guarded(lambda: "tload " + hgxv.enc_list([t for t, _ in recs]) + " "
+                           + hgxv.enc_lists([[to_nat(kind, x) for x in e] for _, e in recs]) + " " + hgxv.enc_list(wts))
+    if st == "exc":
+        ctx.violation(case, f"get_edges lists labels that were never inserted: {recs!r}")
+        return "unlisted", False
+    ob.add(loadline, "ok")
     ob.add("ttimes", hgxv.enc_list(times))
     ctx.count("temporal_" + kind)
     runs = [t for i, (t, _) in enumerate(recs) if i == 0 or recs[i - 1][0] != t]
@@ -1196,7 +1543,8 @@ def audit_temporal(ctx, case, th, ob):
                 if not weighted:
                     want = adjacency_definition(lab, [e for e in snap if len(e) == by_order + 1])
                     expect_matrix(ctx, case, f"{what}[t={t}]", dd[1], want, n, n)
-                ob.add(f"tadjord {by_order} {t}", mat_str(dd[1][2]))
+                if exact:
+                    ob.add(f"tadjord {by_order} {t}", mat_str(dd[1][2]))
 
     per_time("linalg.temporal_adjacency_matrix", guarded(L.temporal_adjacency_matrix, th, True))
     for what, f, args in (("temporal_adjacency_matrix", L.temporal_adjacency_matrix, ()),
@@ -1255,6 +1603,10 @@ def check_case(ctx, drv, case):
             check_temporal(ctx, drv, case)
     except CaseTimeout:
         ctx.violation(case, "the matrix routines did not return within 20 s on this input")
+    except Exception as e:  # noqa: BLE001 - answers of a shape no oracle foresaw must not stop the run (exit 2 detects nothing)
+        import traceback
+        where = traceback.extract_tb(e.__traceback__)[-1]
+        ctx.violation(case, f"the answers of the implementation could not be evaluated: {type(e).__name__}: {str(e)[:120]} (c09.py line {where.lineno})")
     finally:
         signal.alarm(0)
         signal.signal(signal.SIGALRM, old)
@@ -1262,8 +1614,10 @@ def check_case(ctx, drv, case):
 
 def run(ctx):
     drv = ctx.driver() if ctx.model_available else None
-    for case in fixed_cases():
+    for case in itertools.chain(fixed_cases(), zoo_cases()):
         check_case(ctx, drv, case)
+        if ctx.too_many():
+            return
     n = ctx.scale(400, 9000)
     for i in range(n):
         r = i % 12
